@@ -162,9 +162,9 @@ def model_answers(m):
             hit = [a for a in aa if a[1] == n]
             out.append(("has_argument", n, ib, bool(hit)))
             out.append(("get_argument", n, ib, hit[0] if hit else "NoSuchArgument"))
-        for i in range(len(m.all_args()) + 2):
-            out.append(("has_argument", i, ib, i < len(aa)))
-            out.append(("get_argument", i, ib, aa[i] if i < len(aa) else "NoSuchArgument"))
+        for i in [-1] + list(range(len(m.all_args()) + 2)):
+            out.append(("has_argument", i, ib, 0 <= i < len(aa)))
+            out.append(("get_argument", i, ib, aa[i] if 0 <= i < len(aa) else "NoSuchArgument"))
         out.append(("has_arguments", ib, bool(aa)))
         out.append(("has_required_argument", ib, any(a[2] == "req" for a in aa)))
         out.append(("has_optional_argument", ib, any(a[2] == "opt" for a in aa)))
@@ -233,7 +233,7 @@ class Lab(object):
             for n in ARGS + ["w"]:
                 out.append(("has_argument", n, ib, bool(q.has_argument(n, ib))))
                 out.append(("get_argument", n, ib, get(q.get_argument, n, ib)))
-            for i in range(nargs + 2):
+            for i in [-1] + list(range(nargs + 2)):
                 out.append(("has_argument", i, ib, bool(q.has_argument(i, ib))))
                 out.append(("get_argument", i, ib, get(q.get_argument, i, ib)))
             out.append(("has_arguments", ib, bool(q.has_arguments(ib))))
@@ -254,6 +254,9 @@ class Lab(object):
                 if not any(c is u for u in uniq):
                     uniq.append(c)
             out.append(("get_command_options", ib, frozenset(self.key(c) for c in uniq)))
+            if len(uniq) != len(copts):
+                # an element is listed once, whatever the number of names it answers to
+                out.append(("get_command_options-lists-an-element-twice", ib, tuple(self.key(c) for c in copts)))
             out.append(("has_command_names", ib, bool(q.has_command_names(ib))))
             out.append(("get_command_names", ib, tuple(self.key(c) for c in q.get_command_names(ib))))
             ordered.append(("options-order", ib, tuple(self.key(o) for o in opts.values())))
